@@ -163,6 +163,11 @@ def run_c03(tier, seed):
     distinct |= d3
     counters["evaluations"] = counters.get("evaluations", 0) + c3.get("evaluations", 0)
     stats["server_level"] = dict(hostile_inputs=int(c3.get("evaluations", 0)), monitor_counts=c3.get("counts", {}), **st3)
+    # memcheck cross-check: a slice of the hostile inputs in the plain flavour under valgrind (uninitialised values)
+    mres = vlib.run_memcheck(pbin, ["--prop", "c03", "--seed", str(seed + 13), "--cases", str(400 if tier == "quick" else 12000)], 8 if tier == "quick" else vlib.NCPU, work,
+                             timeout=600 if tier == "quick" else 7200)
+    mc, md, ms, mst = vlib.collect_runs(v, mres, judge_report=lambda rep: rep.get("in_repo"))
+    stats["memcheck_pass"] = dict(evaluations=int(mc.get("evaluations", 0)), **mst)
     if tier == "thorough":
         stats["libfuzzer"] = _fuzz_stage(v, seed, work)
     v.assumptions += ["memory bound judged per parser: largest single request <= 2*limit+1KiB, peak live <= 4*limit+8KiB (plain flavour, replaced operator new)",
